@@ -59,10 +59,16 @@ func (q sreqCase) pathMethod() (string, string) {
 		return "Rt", "mul"
 	case "nosvc":
 		return "NoSvc", "x"
+	case "nomethqf": // the net/rpc spelling "Service.method" of a registered function: no such method
+		return "Fn", "Fn.mul"
+	case "nomethqm": // ... and of a reflected method
+		return "Arith", "Arith.Mul"
 	default:
 		return "Arith", "nometh"
 	}
 }
+
+func (q sreqCase) noMethod() bool { return strings.HasPrefix(q.style, "nometh") }
 
 func (q sreqCase) target() string {
 	switch q.style {
@@ -81,6 +87,9 @@ func (q sreqCase) target() string {
 
 func (q sreqCase) payload(rid int) []byte {
 	if q.badJSON {
+		if q.a%3 == 0 {
+			return []byte{} // no payload at all: for the JSON codec that is not an argument either
+		}
 		return []byte(`{"Id": "not-an-int", `)
 	}
 	m := map[string]interface{}{"Id": rid, "A": q.a, "Mode": q.mode, "Text": srvTexts[q.text]}
@@ -104,7 +113,7 @@ func (q sreqCase) handlerRuns() bool {
 		return false
 	}
 	switch q.style {
-	case "nosvc", "nometh":
+	case "nosvc", "nometh", "nomethqf", "nomethqm":
 		return false
 	case "router":
 		// the router handler itself is user code: it runs, Bind fails inside it for bad input
@@ -260,8 +269,8 @@ func srvRunCase(o *common.Out, id string, nconn int, reqs []sreqCase, order []in
 			wantErr = srvAuthText
 		case q.style == "nosvc":
 			wantErr = "rpcx: can't find service NoSvc"
-		case q.style == "nometh":
-			wantErr = "rpcx: can't find method nometh"
+		case q.noMethod():
+			wantErr = "rpcx: can't find method " + meth
 		case q.ser != 1:
 			wantErr = "can not find codec for 9"
 		case q.badJSON:
@@ -680,8 +689,9 @@ func srvClientCheck(o *common.Out, id, abstract string, rig *srvRig, reqs []sreq
 		switch {
 		case q.style == "nosvc":
 			want = "rpcx: can't find service NoSvc"
-		case q.style == "nometh":
-			want = "rpcx: can't find method nometh"
+		case q.noMethod():
+			_, m := q.pathMethod()
+			want = "rpcx: can't find method " + m
 		case q.mode == "veto":
 			want = srvVetoText
 		case q.mode == "err":
@@ -1053,7 +1063,7 @@ func srvQueuedPool(o *common.Out, id string, reqs []sreqCase, order []int, oracl
 		if !v.isResp || v.seq != q.seq || v.path != path || v.method != meth || v.ser != q.ser {
 			o.Fail(id, "wrong-stamp", fmt.Sprintf("the task of request %d (seq %d %s.%s) wrote a response with seq=%d %s.%s resp=%v", rid, q.seq, path, meth, v.seq, v.path, v.method, v.isResp), abstract)
 		}
-		if q.mode == "ok" && !q.hb && q.ser == 1 && !q.badJSON && q.style != "nosvc" && q.style != "nometh" {
+		if q.mode == "ok" && !q.hb && q.ser == 1 && !q.badJSON && q.style != "nosvc" && !q.noMethod() {
 			if rp, ok := replyOf(v); !ok || v.status != "normal" || rp.Id != rid || rp.C != q.a*q.effB() {
 				o.Fail(id, "wrong-result", fmt.Sprintf("request %d (A=%d,B=%d) answered status=%s payload=%s", rid, q.a, q.effB(), v.status, show(v.payload)), abstract)
 			}
@@ -1103,7 +1113,7 @@ func genSreq(prop string, r *common.Rand, nconn int) sreqCase {
 	if r.Chance(20) {
 		q.seq = r.U64()
 	}
-	q.style = []string{"method", "method", "pooled", "pooled", "pooledv", "func", "funcp", "router", "nosvc", "nometh"}[r.Intn(10)]
+	q.style = []string{"method", "method", "pooled", "pooled", "pooledv", "func", "funcp", "router", "nosvc", "nometh", "nomethqf", "nomethqm"}[r.Intn(12)]
 	failP := 25
 	if prop == "C07" {
 		failP = 60
@@ -1274,10 +1284,10 @@ func runSrv(prop string, r *common.Rand, tier string, o *common.Out, replay stri
 		// systematic matrix: every dispatch style x every way a request can end x one-way / two-way, each followed by
 		// an ordinary request on the same connection (what a one-way request must NOT produce is a frame)
 		k := 0
-		for _, style := range []string{"method", "pooled", "pooledv", "func", "funcp", "router", "nosvc", "nometh"} {
-			for _, end := range []string{"ok", "err", "panic", "veto", "badjson", "ser9", "limit", "auth"} {
+		for _, style := range []string{"method", "pooled", "pooledv", "func", "funcp", "router", "nosvc", "nometh", "nomethqf", "nomethqm"} {
+			for _, end := range []string{"ok", "err", "panic", "veto", "badjson", "nobody", "ser9", "limit", "auth"} {
 				for _, ow := range []bool{false, true} {
-					if end == "veto" && (style == "router" || style == "nosvc" || style == "nometh") {
+					if end == "veto" && (style == "router" || style == "nosvc" || strings.HasPrefix(style, "nometh")) {
 						continue
 					}
 					if (end == "limit" || end == "auth") && prop != "C04" {
@@ -1290,7 +1300,9 @@ func runSrv(prop string, r *common.Rand, tier string, o *common.Out, replay stri
 					case "veto", "limit", "auth":
 						q.mode = end
 					case "badjson":
-						q.badJSON = true
+						q.badJSON, q.a = true, 4
+					case "nobody":
+						q.badJSON, q.a = true, 3
 					case "ser9":
 						q.ser = 9
 					}
